@@ -241,7 +241,11 @@ class PyArrowMissingValueFeatureGroup(MissingValueFeatureGroup):
             # Create a mask for this group
             group_masks = []
             for j, group_feature in enumerate(group_by_features):
-                group_masks.append(pc.equal(data[group_feature], pa.scalar(group_key[j])))
+                if group_key[j] is None:
+                    # a missing key is a group of its own (pc.equal with a null scalar would select nothing)
+                    group_masks.append(pc.is_null(data[group_feature]))
+                else:
+                    group_masks.append(pc.fill_null(pc.equal(data[group_feature], pa.scalar(group_key[j])), False))
 
             group_mask = group_masks[0]
             for mask in group_masks[1:]:
